@@ -71,6 +71,7 @@ class AppMixin:
         self.sim.rec("state", self.name, int(connection_state))
         self.states.append((self.sim.evno, connection_state))
         self.sim.ep_event(self, "state", connection_state)
+        self.sim.state_hook_arg = connection_state  # (which transition this hook call announces)
         await self.sim.hook(self.name, "on_state_change")
 
     async def should_replay(self, historical_replay_msg):
